@@ -279,7 +279,21 @@ pub fn phases(thorough: bool, _seed: u64) -> Vec<Phase> {
         body: Box::new(move |unit, cx| {
             use arbitrary::{Arbitrary, Unstructured};
             const V: [f64; 7] = [1.0, f64::NAN, f64::INFINITY, 0.0, -1.0, 5e-324, -2.5];
-            let bytes: Vec<u8> = match cx.choose(2) {
+            let bytes: Vec<u8> = match cx.choose(3) {
+                2 => {
+                    // 21..64 ends with bit-identical duplicates, descending or shuffled, followed by bytes with mixed bits
+                    let n = [21usize, 22, 24, 33, 40, 64][cx.choose(6)];
+                    let shuffled = cx.flag();
+                    let mut b = vec![];
+                    for i in 0..n {
+                        let k = if shuffled { (i * 7 + 3) % n } else { n - 1 - i };
+                        b.push(1);
+                        b.extend((1.0 + (k / 2) as f64).to_bits().to_le_bytes()); // every value twice
+                    }
+                    b.push(0);
+                    b.extend((0..n * 24 + 64).map(|i| ((i * 37 + 11) % 251) as u8));
+                    b
+                }
                 0 => {
                     // 0..3 ends over V in the Vec<f64> encoding (continuation byte, 8 bytes), then piece bytes
                     let n = cx.choose(4);
@@ -324,7 +338,7 @@ pub fn phases(thorough: bool, _seed: u64) -> Vec<Phase> {
             })
         }),
         classes: vec![],
-        bounds: json!({"inputs": "byte strings encoding 0..3 ends over {1,NaN,+inf,0,-1,5e-324,-2.5} followed by piece bytes; 0..40 copies of 0xff, 0x00, 0x7f, 0xf0, 0x01",
+        bounds: json!({"inputs": "byte strings encoding 0..3 ends over {1,NaN,+inf,0,-1,5e-324,-2.5} followed by piece bytes; 0..40 copies of 0xff, 0x00, 0x7f, 0xf0, 0x01; 21..64 ends in which every value occurs twice (descending / shuffled) followed by bytes with mixed bits",
             "operations": "Arbitrary::arbitrary and arbitrary_take_rest for Piecewise<Poly1>, Piecewise<PolyN>, Piecewise<Poly8>, Piecewise<Piecewise<Poly0>>; arbitrary for Poly3, Knot"}),
     });
     // ---- documented rejections: executed and reported, never flagged
